@@ -67,6 +67,16 @@ def classify_div(inv, sc, site):
     if d[0] != "k" and positive(d):
         site["guard"] = "divisor structurally positive (clamped from below by a positive constant)"
         return
+    # the same through a small helper of the workspace (`sample_divisions(width)` = 10.min(..).max(5)): its returned expression in place of the call
+    if any(x[0] == "call" for x in walk(d)):
+        from .cfgq import inline_all
+        try:
+            d2 = strip(inline_all(inv.prog, d))
+        except Exception:
+            d2 = d
+        if d2 != d and d2[0] != "k" and positive(d2):
+            site["guard"] = "divisor structurally positive once its helper function is read (clamped from below by a positive constant)"
+            return
     if d[0] == "k":
         try:
             if float(d[1]) != 0.0:
